@@ -262,6 +262,12 @@ func checkC09(c *Check) {
 
 	// 5. single owner
 	singleOwner(c, t)
+
+	// 6. the end-of-session record of a session still waiting for its login
+	// is in the hold queue: every delivered event of an unbound session is
+	// held (never dropped), in a queue that is the object's own (rules of C02)
+	ne := importRules(c, "C02", checkC02, "end-record-held: ", "exactly-one-of", "hold-iff-unbound", "queue-private")
+	c.Floor("imported end-record-held obligations", 10, ne)
 }
 
 // containsUserPtr: type mentions *user (directly, in a slice, array, map,
